@@ -56,7 +56,7 @@ func parseV3(data string) (*V3, error) {
 	}
 
 	// Uncompress the bytes
-	raw, err = snappy.Decode(nil, raw)
+	raw, err = decompress(raw)
 	if err != nil {
 		return nil, err
 	}
